@@ -445,11 +445,17 @@ def observed_negotiation(r):
 
 
 def judge(ctx, r, cfgdesc, spec, aead, fam):
-    """direct oracle; returns (completed, vc, vs)"""
+    """direct oracle; returns (completed, vc, vs).  completed = the entry point delivered a result to its caller
+    (connect()/create_connection() returned, get_server_host_key()/get_server_auth_methods() returned, the
+    reverse acceptor was called) or the server reached the authenticated state"""
     m = r.mitm
     vc, vs = W.local_view(m, 'c'), W.local_view(m, 's')
     completed = bool(r.c_done or r.s_done)
     rp = {'kind': 'sweep', 'cfg': cfgdesc, 'edit': spec}
+    entry = getattr(r, 'entry', 'connect')
+    if completed and entry == 'host_key' and isinstance(r.value, bytes) and r.value != vs.get('k_s'):
+        ctx.failing_input(f'get_server_host_key() returned a key that is not the host key the server sent '
+                          f'({cfgdesc}, edit {spec})', rp)
     if completed:
         if r.c_sid is not None and r.s_sid is not None and r.c_sid != r.s_sid:
             ctx.failing_input(f'handshake completed with different session ids on the two sides ({cfgdesc}, edit {spec})', rp)
@@ -703,6 +709,63 @@ def stage_sweep(ctx, rec, aead):
         ctx.broke('vacuity:sweep-completions', f'only {ncompleted} sessions completed: view-preserving edits are not exercised')
 
 
+ENTRY_METHODS = ('curve25519-sha256', 'diffie-hellman-group14-sha256', 'diffie-hellman-group-exchange-sha256',
+                 'rsa2048-sha256')
+
+
+def stage_entries(ctx, rec, aead):
+    """the on-path edits again, through every other public entry point that reports something learned from the
+    handshake: no altered handshake may deliver a result to the caller"""
+    rng = ctx.rng
+    avail = available_kex()
+    thorough = ctx.tier == 'thorough'
+    methods = [k for k in ENTRY_METHODS if k in avail][:None if thorough else 2]
+    cases, meta = [], []
+    n = delivered_n = 0
+    for entry in W.ENTRIES[1:]:
+        for kex in methods:
+            fam = W.family_of(kex)
+            cfg = sweep_cfg(kex)
+            cfgdesc = {'kex': kex, 'entry': entry}
+            gen = []
+            for side in ('c', 's'):
+                gen += ver_edits(side, False) + kexinit_edits(side, False)
+            specs = [None] + kex_edits(fam, False) + (gen if thorough else rng.sample(gen, 24))
+            if fam == 'gex':
+                specs += [sp for old, sp in gex_request_specs() if not old][:None if thorough else 12]
+            stalls = 0
+            for spec in specs:
+                if stalls > 25:
+                    break
+                r = sshutil.run(W.run_session(cfg, make_edit(spec, fam, kex.encode()) if spec else None, rec, entry=entry),
+                                timeout=120)
+                if spec is not None and not r.mitm.applied:
+                    continue
+                n += 1
+                stalls += r.stalled
+                completed, vc, vs = judge(ctx, r, cfgdesc, spec, aead, fam)
+                delivered = bool(r.c_done)
+                delivered_n += delivered
+                if spec is None and not delivered:
+                    ctx.broke('control:%s:%s' % (entry, kex), f'unedited handshake through {entry} gave no result: {r.c_exc}')
+                    break
+                exact = spec is None or is_exact(fam, spec)
+                ctx.note_case(('entry', entry, kex, tuple(map(str, spec or ()))), nontrivial=spec is not None)
+                ctx.count('entry.%s.%s' % (entry, 'delivered' if delivered else 'failed'))
+                if (entry == 'host_key' or delivered) and len(cases) < (1500 if thorough else 170) and (exact or delivered):
+                    keyv = r.value if entry == 'host_key' and isinstance(r.value, bytes) else None
+                    cases.append('(%s, %s, %s, %s, %s)' % (coq_view(vc, 'c'), coq_diffs(vc, vs), cbool(delivered),
+                                                           copt(keyv, hx), cbool(exact)))
+                    meta.append((entry, kex, spec, delivered))
+    ctx.cov['oracle'].update(entry_sessions=n, entry_results_delivered=delivered_n, entry_points=list(W.ENTRIES))
+    bad = ctx.coq_cases('entry', IMPORTS, 'chk_entry', cases, ty='view * list vdiff * bool * option bytes * bool', shard=40)
+    if bad:
+        e, k, spec, d = meta[bad[0]]
+        ctx.broke('correspondence:entry', f'{len(bad)} of {len(cases)} differ; first: entry={e} kex={k} edit={spec} delivered={d}')
+    if n < 100 or delivered_n < len(methods) * 4:
+        ctx.broke('vacuity:entries', f'{n} sessions through the other entry points, {delivered_n} delivered a result')
+
+
 def stage_negotiate(ctx, rec, aead):
     import asyncssh
     import asyncssh.encryption as E
@@ -928,6 +991,9 @@ async def forging_server():
 def run(ctx):
     warnings.simplefilter('ignore')
     ctx.cov['rule'] = (
+        '(a0) the edits of (a) are also run through create_connection(), get_server_host_key(), get_server_auth_methods() '
+        'and listen_reverse()/connect_reverse(): no altered handshake may deliver a result to the caller, and a key '
+        'returned by get_server_host_key() must be the key the server sent; '
         '(a) every on-path edit from a generated list is applied in flight to a real asyncssh client <-> server handshake '
         'over an in-memory wire: field-level edits (re-framed, padding recomputed) of both identification lines, both '
         'KEXINITs (cookie; removal / reorder / insertion / emptying of entries of every name-list; flags; strict-kex and '
@@ -961,6 +1027,8 @@ def run(ctx):
             ctx.log('kex registry not found: exchange-hash recording disabled')
         stage_sweep(ctx, rec, aead)
         ctx.log('sweep stage done')
+        stage_entries(ctx, rec, aead)
+        ctx.log('entry point stage done')
         stage_negotiate(ctx, rec, aead)
         ctx.log('negotiate stage done')
     finally:
@@ -994,7 +1062,8 @@ def replay(rp):
         try:
             rec.gex_old = bool(rp['cfg'].get('gex_old')) or (bool(spec) and spec[0] == 'gex_old')
             noedit = not spec or spec[0] == 'gex_old'
-            r = sshutil.run(W.run_session(sweep_cfg(kex), None if noedit else make_edit(spec, fam, kex.encode()), rec))
+            r = sshutil.run(W.run_session(sweep_cfg(kex), None if noedit else make_edit(spec, fam, kex.encode()), rec,
+                                          entry=rp['cfg'].get('entry', 'connect')))
         finally:
             rec.uninstall()
         judge(c, r, rp['cfg'], spec, aead, fam)
